@@ -71,3 +71,65 @@ Theorem C02_collision_refuted :
     ~ hashes_unique (work (init_chain g)).
 Proof. exact InvSupply.C02_collision_refuted. Qed.
 Print Assumptions C02_collision_refuted.
+
+(* the history theorem with its hypothesis about the run ([run_ok] at every prefix) discharged:
+   every assumption is about what the environment supplies -- the genesis document (parameters in
+   range, at most one validator [with two the genesis stakes collide, see C02_collision_refuted],
+   validator powers in the int64 range, holder balances in the uint256 range), the operation list
+   (executed staking transactions carry fresh hashes; transactions carry Go-typed fields and no EVM
+   execution; the parameter documents of submitted parameter proposals keep well-formed parameters
+   well formed when merged, which the submission check does not enforce) -- plus the bound on the
+   total ever minted (genesis supply + rewards withdrawn during the history) *)
+From Rigo Require InvStake InvReach.
+Theorem C02_holds_closed : forall g ops s p gh,
+  hrun (init_chain g, PIdle, ghost0) ops = Some (s, p, gh) ->
+  (params_ok (gen_params g) /\ (length (gen_validators g) <= 1)%nat /\
+   Forall (fun v : addr * Z => 0 <= v.2 < two63) (gen_validators g) /\
+   Forall (fun h : addr * Z => 0 <= h.2 < two256) (gen_holders g)) ->
+  InvStake.fresh_run (init_chain g) ops ->
+  txs_ok ops ->
+  Forall (fun o => match o with SDeliver t => InvReach.tx_opts_ok t | _ => True end) ops ->
+  supply (work (init_chain g)) + gh_withdrawn gh < supply_bound ->
+  s = srun (init_chain g) ops /\
+  C02_equation g s p gh /\
+  bal_range (work s) /\
+  (forall a, 0 <= bal_of (work s) a < supply_bound) /\
+  0 <= gh_withdrawn gh /\ 0 <= gh_slashed gh /\ 0 <= gh_burned gh.
+Proof. exact InvReach.C02_closed. Qed.
+Print Assumptions C02_holds_closed.
+
+(* the run-level hypothesis of C02_holds, from the same input-only hypotheses (no history, no bound) *)
+Theorem C02_run_ok_reachable : forall g ops,
+  (params_ok (gen_params g) /\ (length (gen_validators g) <= 1)%nat /\
+   Forall (fun v : addr * Z => 0 <= v.2 < two63) (gen_validators g) /\
+   Forall (fun h : addr * Z => 0 <= h.2 < two256) (gen_holders g)) ->
+  InvStake.fresh_run (init_chain g) ops ->
+  Forall (fun o => match o with SDeliver t => InvReach.tx_opts_ok t | _ => True end) ops ->
+  forall pre, pre `prefix_of` ops -> run_ok (srun (init_chain g) pre).
+Proof. exact InvReach.run_ok_reachable. Qed.
+Print Assumptions C02_run_ok_reachable.
+
+(* every hypothesis on the inputs, nothing presupposed about the run: a well-formed genesis document,
+   a well-bracketed operation list (ABCI order, consecutive heights, no votes in block 1, transactions
+   as in C09), staking transactions with pairwise distinct non-zero hashes, Go-typed fields and no EVM
+   execution, and genesis supply + everything the list's withdrawals REQUEST below 2^63 RIGO.  Then
+   the list is a history (every BeginBlock / EndBlock answers Ok) and its end state satisfies the
+   C02 equation; no balance wraps *)
+From Rigo Require InvPanic.
+Theorem C02_holds_inputs : forall g ops,
+  (params_ok (gen_params g) /\ (length (gen_validators g) <= 1)%nat /\
+   Forall (fun v : addr * Z => 0 <= v.2 < two63) (gen_validators g) /\
+   Forall (fun h : addr * Z => 0 <= h.2 < two256) (gen_holders g)) ->
+  InvPanic.bracketed InvPanic.Idle 0 ops ->
+  NoDup (0%N :: InvReach.stake_hashes ops) ->
+  txs_ok ops ->
+  supply (work (init_chain g)) + InvReach.requested ops < supply_bound ->
+  exists s p gh,
+    hrun (init_chain g, PIdle, ghost0) ops = Some (s, p, gh) /\
+    s = srun (init_chain g) ops /\
+    C02_equation g s p gh /\
+    bal_range (work s) /\
+    (forall a, 0 <= bal_of (work s) a < supply_bound) /\
+    0 <= gh_withdrawn gh <= InvReach.requested ops /\ 0 <= gh_slashed gh /\ 0 <= gh_burned gh.
+Proof. exact InvReach.C02_closed_total. Qed.
+Print Assumptions C02_holds_inputs.
